@@ -90,6 +90,7 @@ def build(tier, seed):
         return Task(f"{PROP}.Bd.site.dotdot", PROP, "site", run)
     tasks = [a_task(PROP, _get_url), a_task(PROP, _basenode), nav_task(), norm_task(), builder_task(), dotdot_task()] + [site_task(s) for s in c09.SHAPES]
     tasks.append(Task(f"{PROP}.S.page_of_the_context", PROP, "MetaMarkdown.convert", lambda: __import__("contracts.links", fromlist=["x"]).page_of_the_context(PROP, lambda: c09.site_search(shape_names=("constructors local types and file links",), options=[c09.OPTIONS[2]]))))
+    tasks.append(Task(f"{PROP}.S.favicon", PROP, "Documentation.writeout", lambda: __import__("contracts.plumbing", fromlist=["x"]).favicon_copy(PROP, lambda: c09.site_search(shape_names=("custom icon",), options=[c09.OPTIONS[0]]))))
     tasks.append(Task(f"{PROP}.S.source_copies", PROP, "Documentation.writeout", lambda: __import__("contracts.plumbing", fromlist=["x"]).source_copies(PROP, lambda: c09.site_search(shape_names=("capitalised file names",)))))
     meta = {
         "trusted_base": TRUSTED_BASE + ["jinja2's own parser (templates are read through jinja2.Environment().parse)", "cvc5 1.0.3 --strings-exp for the word-equation obligations of get_url"],
